@@ -9,7 +9,7 @@ From Tally Require Import Base.Obs Model.RootClose.
 Import ListNotations.
 Open Scope Z_scope.
 
-Fixpoint threads_of (es : list Obs.ev) : list thread :=
+Fixpoint threads_of (es : list ObsCore.ev) : list thread :=
   match es with
   | [] => []
   | e :: r =>
@@ -33,7 +33,7 @@ Fixpoint picks_of (fuel : nat) (l : list Z) : list pick :=
       | _ => []
       end
   end.
-Definition sched_of (es : list Obs.ev) : list pick :=
+Definition sched_of (es : list ObsCore.ev) : list pick :=
   flat_map (fun e => if ek e =? 42 then picks_of (length (ei e)) (ei e) else []) es.
 
 Fixpoint run_labels (s : sys) (sched : list pick) : sys * list Z :=
